@@ -56,14 +56,14 @@ theorem stable_of_shape (a : RegState) (id h : Nat) (m m' : RegMeta) (recs' : Li
     obtain ⟨rfl, rfl⟩ := Prod.mk.inj e
     rw [hm] at hm0; cases hm0; omega
 
-theorem insert_erase_stable (recs : List ((Nat × Nat) × Rec)) (id h d : Nat) (r : Rec) (hnd : NoDupKeys recs) :
+theorem insert_erase_stable (recs : List ((Nat × Nat) × Rec)) (id h d : Nat) (r : Rec) (hnd : RecsSorted recs) :
     ∀ key, key ≠ (id, h) →
-      find? (erase (AL.insert recs (id, h) r) (id, d)) key = find? recs key ∨
-      find? (erase (AL.insert recs (id, h) r) (id, d)) key = none := by
+      find? (erase (insertRec recs (id, h) r) (id, d)) key = find? recs key ∨
+      find? (erase (insertRec recs (id, h) r) (id, d)) key = none := by
   intro key hne
   by_cases hk : (id, d) = key
-  · subst hk; exact Or.inr (find_erase_eq _ _ (nodup_insert _ _ _ hnd))
-  · left; rw [find_erase_ne _ _ _ hk, find_insert_ne _ _ _ _ (Ne.symm hne)]
+  · subst hk; exact Or.inr (find_erase_eq _ _ (nodup_of_sorted _ (sorted_insertRec _ _ _ hnd)))
+  · left; rw [find_erase_ne _ _ _ hk, find_insertRec_ne _ _ _ _ (Ne.symm hne)]
 
 theorem bcn_op_stable (now wall : Nat) (a b : RegState) (hi : BcnInv a) (hb : RegBounded a) (h : RegOp now wall a b) :
     RecsStable a b := by
@@ -84,10 +84,10 @@ theorem bcn_op_stable (now wall : Nat) (a b : RegState) (hi : BcnInv a) (hb : Re
     rcases hshape with ⟨_, _, rfl⟩ | ⟨_, rfl⟩
     · subst hid
       exact stable_of_shape a m.id (m.last + 1) m _ _ hm (by omega) rfl ⟨rfl, rfl, rfl, rfl, rfl, rfl, rfl⟩
-        (insert_erase_stable a.recs m.id (m.last + 1) m.lowest _ hi.reg.nodupRecs)
+        (insert_erase_stable a.recs m.id (m.last + 1) m.lowest _ hi.reg.sortedRecs)
     · subst hid
       exact stable_of_shape a m.id (m.last + 1) m _ _ hm (by omega) rfl ⟨rfl, rfl, rfl, rfl, rfl, rfl, rfl⟩
-        (fun key hne => Or.inl (find_insert_ne _ _ _ _ (Ne.symm hne)))
+        (fun key hne => Or.inl (find_insertRec_ne _ _ _ _ (Ne.symm hne)))
   | purchase id n o can h =>
     obtain ⟨_, hregs, hrecs, _⟩ := regInv_purchase a id n o b can hi.reg h
     exact ⟨fun id m hm => ⟨m, by rw [hregs]; exact hm, Nat.le_refl _, rfl, rfl, rfl, rfl, rfl, rfl, rfl⟩,
@@ -116,10 +116,10 @@ theorem wrk_op_stable (now wall : Nat) (a b : RegState) (hi : WrkInv a) (hb : Re
     rcases hshape with ⟨_, _, rfl⟩ | ⟨_, rfl⟩
     · subst hid
       exact stable_of_shape a m.id key m _ _ hm hgt rfl ⟨rfl, rfl, rfl, rfl, rfl, rfl, rfl⟩
-        (insert_erase_stable a.recs m.id key m.lowest _ hi.reg.nodupRecs)
+        (insert_erase_stable a.recs m.id key m.lowest _ hi.reg.sortedRecs)
     · subst hid
       exact stable_of_shape a m.id key m _ _ hm hgt rfl ⟨rfl, rfl, rfl, rfl, rfl, rfl, rfl⟩
-        (fun key' hne => Or.inl (find_insert_ne _ _ _ _ (Ne.symm hne)))
+        (fun key' hne => Or.inl (find_insertRec_ne _ _ _ _ (Ne.symm hne)))
   | purchase id n o can h =>
     obtain ⟨_, hregs, hrecs, _⟩ := regInv_purchase a id n o b can hi.reg h
     exact ⟨fun id m hm => ⟨m, by rw [hregs]; exact hm, Nat.le_refl _, rfl, rfl, rfl, rfl, rfl, rfl, rfl⟩,
